@@ -227,6 +227,8 @@ func targetKey(t Target) string {
 		return "I" + x.Typ.String()
 	case BoxT:
 		return fmt.Sprintf("B%d", x.B.id)
+	case LineT:
+		return fmt.Sprintf("L%d", x.id)
 	}
 	panic(fmt.Sprintf("targetKey %T", t))
 }
